@@ -77,6 +77,31 @@ func jobsFor(id, tier string) []*Job {
 	}
 	_ = wmk
 	switch id {
+	case "C01":
+		var bp [][]int
+		for sh := 0; sh < 12; sh++ {
+			bp = append(bp, []int{sh, 12, 0}, []int{sh, 12, 1})
+		}
+		shards2 := 24
+		for sh := 0; sh < shards2; sh++ {
+			if thorough || sh%4 == 0 {
+				bp = append(bp, []int{sh, shards2, 2})
+			}
+		}
+		bj := wmk("builtin", "zzverifw.H_C01_builtin", bp)
+		if !thorough {
+			bj.TimeoutS = 60
+			bj.SolverMs = 2000
+			bj.MaxSteps = 1000000
+		}
+		add(split(bj)...)
+		var sp [][]int
+		for sh := 0; sh < 6; sh++ {
+			sp = append(sp, []int{sh, 6})
+		}
+		sj := wmk("singletons", "zzverifw.H_C01_singletons", sp)
+		sj.MaxSteps = 1000000
+		add(split(sj)...)
 	case "C17":
 		lexOv := map[string]string{"(*github.com/Syuparn/pangaea/parser.Lexer).Lex": "parser.vLex"}
 		for _, j := range []Job{mk("int", "zzverifw.H_C17_int", ints(0, 3)), mk("expint", "zzverifw.H_C17_expint", nil), mk("str", "zzverifw.H_C17_str", nil), mk("float", "zzverifw.H_C17_float", nil)} {
@@ -321,6 +346,8 @@ func assumptionsFor(id string) []string {
 		"harness oracles written from the property statement and docs (DESIGN.md Appendix B)",
 	}
 	switch id {
+	case "C01":
+		return append(common, "built-ins are called directly through their Fn with (env, empty kwargs, args...) as the evaluator does; the list of built-ins is discovered at run time from every object named in the constants environment", "scalar arguments are symbolic (any int64, any float64 bit pattern) for arity 0..1 and boundary constants for arity 2; other argument shapes are concrete values of every kind (26 shapes)", "skipped: Kernel.import / invite! / exit, Str.eval / evalEnv (process, file and nested-evaluation I/O); IO is not injected, so printing built-ins end in NameErr", "paths on which a symbolic value reaches a concrete-only intrinsic (formatting, strings.Repeat, JSON) are abandoned as unsupported and counted")
 	case "C17":
 		return append(common, "literals: one-token programs through the real yyParse actions (token feed in the engine, real lexer natively); spellings are solver choices from pools built around the representability boundaries; oracle = positional value computed by the harness (ints), whole-literal correctly rounded conversion (floats), the documented escapes (strings)", "names: see coverage.extra.names_assumptions (token table executed from the repo, regexps translated to SMT regular languages)")
 	case "C16":
@@ -368,6 +395,15 @@ func assumptionsFor(id string) []string {
 func boundsFor(id, tier string, jobs []*Job) map[string]interface{} {
 	b := map[string]interface{}{"tier": tier}
 	switch id {
+	case "C01":
+		b["builtins"] = "every built-in function object reachable from the constants environment (about 290)"
+		if tier == "thorough" {
+			b["arity"] = "0, 1 and 2 arguments for every built-in"
+		} else {
+			b["arity"] = "0 and 1 argument for every built-in; 2 arguments for a quarter of them (6 of 24 shards)"
+		}
+		b["argument_shapes"] = "symbolic int, symbolic float, nil, bool, strs, arrays, objects, maps, ranges, function, iterator, Either values, error value, prototypes, bear children, symbol, char (solver choice per position)"
+		b["singletons"] = "every name of the constants environment x 15 generic probes (printing, lookup, comparison, bear, which, try)"
 	case "C17":
 		b["int_literals"] = "decimal / hex / octal / binary: 7..16 spellings each (underscores, leading zeros, prefix case, values at and beyond 2^63-1 and 2^64-1)"
 		b["exponent_ints"] = "9 mantissas x 11 exponents x e/E"
@@ -506,6 +542,8 @@ func boundsFor(id, tier string, jobs []*Job) map[string]interface{} {
 
 func outsideFor(id string) []string {
 	switch id {
+	case "C01":
+		return []string{"arbitrary source text through the regex lexer and the grammar's error paths (token-level parsing is exercised by C02 / C17)", "stdin contents, REPL and CLI wiring, the HTTP module, file and process I/O built-ins", "recursion-depth and memory exhaustion (excluded by the statement), e.g. huge repeat counts", "three or more arguments, keyword arguments", "programs composed of several calls (covered per construct by C03..C15)"}
 	case "C17":
 		return []string{"integer and string spellings outside the pools (digits are not symbolic: no symbolic-content strings in the engine)", "symbols and property positions of names (only variable position is replayed)", "raw strings, char literals, embedded strings' pieces", "names longer than the bound or outside ASCII"}
 	case "C16":
